@@ -228,7 +228,6 @@ fn proto_to_bool_vec(bytes: Vec<u8>) -> Result<Vec<bool>, FromBytesError> {
     if len < 4 {
         return Err(FromBytesError::InvalidSize);
     }
-    let bool_bytes = len - 4;
     let bool_count = u32::from_le_bytes([bytes[0], bytes[1], bytes[2], bytes[3]]);
     if bool_count == 0 {
         return Ok(Vec::new());
@@ -242,14 +241,15 @@ fn proto_to_bool_vec(bytes: Vec<u8>) -> Result<Vec<bool>, FromBytesError> {
     let bools_data = &bytes.as_slice()[4..];
     let mut bools_out = Vec::with_capacity(bool_count as usize);
 
-    for b in bools_data.iter().take(bool_bytes - 1) {
+    let full_bytes = (bool_count / 8) as usize;
+    for b in bools_data.iter().take(full_bytes) {
         for j in (0..8).rev() {
             bools_out.push(((b >> j) & 1) == 1);
         }
     }
 
     for i in 0..(bool_count % 8) {
-        bools_out.push(((bools_data[bool_bytes - 1] >> (7 - i)) & 1) == 1);
+        bools_out.push(((bools_data[full_bytes] >> (7 - i)) & 1) == 1);
     }
     Ok(bools_out)
 }
